@@ -17,7 +17,13 @@ def run_chunk(args):
     ns = net.NetSim(nodes, seed=seed, jitter=jitter, lazy_drain=True)
     name = {nd["addr"]: nd["name"] for nd in nodes}
     js = []
-    for (s, lvl, t, n) in jobs:
+    for ji, (s, lvl, t, n) in enumerate(jobs):
+        if ji % 4 == 0:
+            # ordinary unicast traffic in between: routed ack-type writes (their NETWORK_ACK wait must not leave a node
+            # acknowledging multicasts afterwards)
+            for (a, b) in ((0o1, 0o2), (0o11, 0o3), (0o21, 0o12)):
+                if opts.get(a, {}).get("allow_multicast") is not False:
+                    js.append(net.job_write(name[a], b, 65, b"unicast", chk=["C07"], budget_ms=6000))
         msg = bytes(((i * 5 + n + s) & 0xFF) for i in range(n))
         js.append(net.job_multicast(name[s], msg, t, lvl, chk=["C14", "C07"]))
     tr = ns.run(js)
@@ -86,6 +92,10 @@ def run(chk):
         for v in vs:
             w = t["wins"][v["at"] - 1]
             c = w["call"]
+            if c["api"] != "multicast":
+                key = "%s:unicast-interlude:%s" % (v["clause"], v["detail"])
+                found.setdefault(key, []).append((dict(kind="mcast", meta=t["meta"], job=[oct(c["src"]), oct(c["to"])]), v))
+                continue
             cls = "master" if c["src"] == 0 else "0o1" if c["src"] == 1 else "level%d" % (len(oct(c["src"])) - 2)
             import re
             key = "%s:%s->L%s:%s" % (v["clause"], cls, c["level"] if c["level"] >= 0 else "default", re.sub(r"\d+", "N", v["detail"]))
